@@ -129,6 +129,17 @@ theorem uint_of_text_range (s : Text) (r : Int) (h : uintOfText s = .ok r) : u64
   unfold uintOfText at h
   split at h <;> exact uint64_bind_range h
 
+/-- unparsable text is an error: any character that is not a letter, a digit, a sign or an underscore
+inside the (blank-stripped) text makes Python's `int(text, base)` — hence `int()` / `uint()` of the
+text — raise `ValueError`; e.g. `"1.0"`, `"1e3"` (base 10: also letters), `"4 2"`, `"1,000"` -/
+theorem bad_int_text_is_error (base : Nat) (s : Text) (c : Nat) (hc : c ∈ strip s) (hv : digitVal c = none)
+    (h43 : c ≠ 43) (h45 : c ≠ 45) (h95 : c ≠ 95) : pyInt base s = .error .valueError :=
+  pyInt_bad_char base s c hc hv h43 h45 h95
+
+example : intOfText [49, 46, 48] = .error .valueError := by rfl     -- "1.0"
+example : intOfText [52, 32, 50] = .error .valueError := by rfl     -- "4 2"
+example : uintOfText [45, 49] = .error .valueError := by rfl        -- "-1"
+
 /-! #### string ↔ bytes -/
 
 /-- `string(bytes(s)) == s` for every string of Unicode scalar values (every CEL string) -/
